@@ -668,6 +668,8 @@ def poly_of(e, atomizer, depth=0):
 
 # ---------------------------------------------------------------- decision tables of loop-free bodies
 
+_VARIANT_INDEX = {}      # "Enum::Variant" -> variant index, filled from the aggregates met while evaluating paths
+
 _STD_VARIANTS = {"None": 0, "Some": 1, "Ok": 0, "Err": 1, "Continue": 0, "Break": 1, "Less": 255, "Equal": 0, "Greater": 1,
                  "Included": 0, "Excluded": 1, "Unbounded": 2}
 
@@ -683,7 +685,12 @@ def decision_paths(fn, limit=400, with_calls=False, with_env=False, start=0, sto
     def ev_place(p, env):
         l = p["l"]
         projs = p["p"]
-        if projs and projs[0] == "deref" and ("mem", l) in env and not with_trace:
+        if with_trace and projs and projs[0] == "deref" and l in env.get("#mutref", {}) and env["#mutref"][l] in env \
+                and isinstance(env[env["#mutref"][l]], tuple) and env[env["#mutref"][l]][:1] in (("agg",), ("upd",)):
+            # `(*p).f` where p = &mut local aggregate: the local's current value (it may have been updated through p)
+            e = env[env["#mutref"][l]]
+            projs = projs[1:]
+        elif projs and projs[0] == "deref" and ("mem", l) in env and not with_trace:
             e = env[("mem", l)]          # the pointee was (partly) overwritten on this path
             projs = projs[1:]
         elif l in env:
@@ -745,8 +752,23 @@ def decision_paths(fn, limit=400, with_calls=False, with_env=False, start=0, sto
             else:
                 e = ("proj", e, str(el))
         if with_trace and through_ptr and e[0] in ("field", "deref"):
-            # trace mode: a read through a pointer is stamped with the number of events before it (memory may change later)
-            e = ("rd", e, len(env.get("#trace", ())))
+            # trace mode: a read through a pointer is stamped with the position of the last event that may have written
+            # a place of that name (a store to a field so named, a call handed `&mut` of one): reads of unchanged memory
+            # are the same expression, a read after a store is a different one
+            nm = e[2] if e[0] == "field" else None
+            stamp = 0
+            tr = env.get("#trace", ())
+            for i_ in range(len(tr) - 1, -1, -1):
+                ev_ = tr[i_]
+                if ev_[0] == "store":
+                    pl_ = ev_[1]
+                    if nm is None or (isinstance(pl_, tuple) and pl_ and pl_[0] == "field" and pl_[2] == nm) or (isinstance(pl_, tuple) and pl_ and pl_[0] != "field"):
+                        stamp = i_ + 1
+                        break
+                elif ev_[0] == "call" and _takes_mut(ev_[2], nm):
+                    stamp = i_ + 1
+                    break
+            e = ("rd", e, stamp)
         return e
 
     def place_name(p, env):
@@ -790,7 +812,10 @@ def decision_paths(fn, limit=400, with_calls=False, with_env=False, start=0, sto
                 return ("checked", op[:-len("WithOverflow")], a, b, rv["ty"])
             return ("bin", op.replace("Unchecked", ""), a, b, rv["ty"])
         if "un" in rv:
-            return ("un", rv["un"], ev_op(rv["a"], env))
+            a_ = ev_op(rv["a"], env)
+            if rv["un"] == "Not" and a_[0] == "const" and a_[1] in (0, 1, True, False) and str(a_[3] if len(a_) > 3 else "") == "bool":
+                return ("const", int(not a_[1]), None, "bool")
+            return ("un", rv["un"], a_)
         if "discr" in rv:
             inner = ev_place(rv["discr"], env)
             # discriminant of a value whose variant is known on this path (std enums): a constant
@@ -798,12 +823,16 @@ def decision_paths(fn, limit=400, with_calls=False, with_env=False, start=0, sto
                 head, _, var = inner[1].rpartition("::")
                 if var in _STD_VARIANTS and any(head.endswith(x) for x in ("option::Option", "result::Result", "ops::ControlFlow", "cmp::Ordering", "ops::Bound", "range::Bound")):
                     return ("const", _STD_VARIANTS[var], None, "isize")
+                if with_trace and inner[1] in _VARIANT_INDEX:
+                    return ("const", _VARIANT_INDEX[inner[1]], None, "isize")     # an enum value built on this path
             return ("discr", inner, rv.get("of"))
         if "agg" in rv:
             ops = [ev_op(o, env) for o in rv["ops"]]
             k = rv["agg"]
             if k == "adt":
                 names = rv.get("fields", [])
+                if isinstance(rv.get("vidx"), int) and rv.get("enum", True):
+                    _VARIANT_INDEX.setdefault(rv["adt"] + "::" + rv["variant"], rv["vidx"])
                 return ("agg", rv["adt"] + "::" + rv["variant"], {names[i] if i < len(names) else str(i): o for i, o in enumerate(ops)})
             if k == "tuple":
                 return ("tuple", tuple(ops))
@@ -848,7 +877,17 @@ def decision_paths(fn, limit=400, with_calls=False, with_env=False, start=0, sto
                 # field update of an aggregate local: record as an updated aggregate when possible
                 base = env.get(lhs["l"])
                 el = lhs["p"][-1]
-                if base is not None and base[0] in ("agg",) and isinstance(el, dict) and "f" in el and len(lhs["p"]) == 1:
+                mr_ = env.get("#mutref", {})
+                if with_trace and lhs["p"][0] == "deref" and lhs["l"] in mr_ and len(lhs["p"]) == 2 and isinstance(el, dict) and "f" in el \
+                        and isinstance(env.get(mr_[lhs["l"]]), tuple) and env[mr_[lhs["l"]]][:1] == ("agg",):
+                    # store through `&mut local aggregate`
+                    tgt_ = mr_[lhs["l"]]
+                    d = dict(env[tgt_][2])
+                    d[el["name"]] = v
+                    env[tgt_] = ("agg", env[tgt_][1], d)
+                elif with_trace and lhs["p"] == ["deref"] and lhs["l"] in mr_ and isinstance(env.get(mr_[lhs["l"]]), tuple) and env[mr_[lhs["l"]]][:1] == ("agg",):
+                    env[mr_[lhs["l"]]] = v        # `*p = value` through `&mut local aggregate`
+                elif base is not None and base[0] in ("agg",) and isinstance(el, dict) and "f" in el and len(lhs["p"]) == 1:
                     d = dict(base[2])
                     d[el["name"]] = v
                     env[lhs["l"]] = ("agg", base[1], d)
@@ -905,7 +944,7 @@ def decision_paths(fn, limit=400, with_calls=False, with_env=False, start=0, sto
             # the same value tested a second time on this path (a bool local used by two `if`s): only the edge that
             # agrees with the first decision is feasible.  Values read through a pointer are excluded (the pointee may
             # have been changed in between).
-            if not any(isinstance(x, tuple) and x and x[0] in ("deref", "call_mut") for x in walk(d)):
+            if (with_trace and _versioned(d)) or not any(isinstance(x, tuple) and x and x[0] in ("deref", "call_mut") for x in walk(d)):
                 prev = [c_ for c_ in conds if c_[0] == d]
                 if prev:
                     pv, pall = prev[-1][1], prev[-1][2]
@@ -983,6 +1022,46 @@ def decision_paths(fn, limit=400, with_calls=False, with_env=False, start=0, sto
 
     go(start, dict(init_env or {}), [], frozenset())
     return out
+
+
+def _takes_mut(args, nm):
+    """Does a call receive `&mut` of a place whose last field is `nm` (any place if nm is None)?"""
+    for a in args:
+        for x in walk(a):
+            if x[0] == "ref" and len(x) > 2 and x[2]:
+                t = x[1]
+                while isinstance(t, tuple) and t and t[0] == "rd":
+                    t = t[1]
+                if nm is None or (isinstance(t, tuple) and t and t[0] == "field" and t[2] == nm):
+                    return True
+    return False
+
+
+def _versioned(d):
+    """Every read through a pointer in d carries a version stamp (trace mode), and nothing in it was handed out mutably."""
+    def ok(e, under):
+        if not isinstance(e, tuple) or not e:
+            return True
+        if e[0] == "call_mut":
+            return False
+        if e[0] == "deref" and not under:
+            return False
+        u = under or e[0] == "rd"
+        for x in e[1:]:
+            if isinstance(x, tuple):
+                if x and isinstance(x[0], str):
+                    if not ok(x, u):
+                        return False
+                else:
+                    for y in x:
+                        if isinstance(y, tuple) and not ok(y, u):
+                            return False
+            elif isinstance(x, dict):
+                for y in x.values():
+                    if not ok(y, u):
+                        return False
+        return True
+    return ok(d, False)
 
 
 _COMBINATORS = {
